@@ -27,10 +27,10 @@ class Suspension:
             if isinstance(n, ast.Await):
                 r = self.may_suspend_expr(n.value, f, stack + (f.key,))
                 if r:
-                    reason = f'{f.qual}:{n.lineno} {r}'
+                    reason = f'{f.qual}:{int(round(n.lineno))} {r}'
                     break
             elif isinstance(n, (ast.AsyncFor, ast.AsyncWith)):
-                reason = f'{f.qual}:{n.lineno} async {"for" if isinstance(n, ast.AsyncFor) else "with"}'
+                reason = f'{f.qual}:{int(round(n.lineno))} async {"for" if isinstance(n, ast.AsyncFor) else "with"}'
                 break
         if not stack:
             self.memo[f.key] = reason
